@@ -59,11 +59,11 @@ var writerSpecs = []writerSpec{
 		"lisp.builtinLoadBytes":  "nested load",
 		"lisp.builtinLoadFile":   "nested load",
 	}},
-	{field: "lisp.CallFrame.HeightLogical", floor: 2, permitted: map[string]string{
+	{field: "lisp.CallFrame.HeightLogical", floor: 1, permitted: map[string]string{
 		"lisp.(*LEnv).funCall":       "tail loop accounts for elided frames",
 		"lisp.(*LEnv).specialOpCall": "tail loop accounts for elided frames",
 	}},
-	{field: "lisp.CallFrame.TailIterations", floor: 2, permitted: map[string]string{
+	{field: "lisp.CallFrame.TailIterations", floor: 1, permitted: map[string]string{
 		"lisp.(*LEnv).funCall":       "tail loop iteration count",
 		"lisp.(*LEnv).specialOpCall": "tail loop iteration count",
 	}},
@@ -340,4 +340,50 @@ func (c *Ctx) privateHelperOf(f *types.Func, allowed func(name string) bool, dep
 	}
 	sort.Strings(via)
 	return strings.Join(via, ", "), true
+}
+
+// withHelpers returns u followed by its private helpers: the unexported
+// same-package functions (and methods) it calls, directly or through another
+// such helper (depth 3), that are never used as values.  Rules that look for a
+// construct "in function F" look in this set, so that moving statements from F
+// into a helper only F uses does not hide them.
+func (c *Ctx) withHelpers(u FuncUnit) []FuncUnit {
+	key := "withHelpers:" + u.Name()
+	if v, ok := c.memo[key].([]FuncUnit); ok {
+		return v
+	}
+	out := []FuncUnit{u}
+	in := map[*types.Func]bool{u.Obj: true}
+	for depth := 0; depth < 3; depth++ {
+		added := false
+		for _, cur := range append([]FuncUnit(nil), out...) {
+			if cur.Decl == nil || cur.Decl.Body == nil {
+				continue
+			}
+			for _, ce := range callsIn(cur.Decl.Body, true) {
+				g := originOf(Callee(cur.Pkg.TypesInfo, ce))
+				if g == nil || in[g] || g.Exported() || g.Pkg() != u.Obj.Pkg() {
+					continue
+				}
+				gd := c.declOf[g]
+				if gd == nil || gd.Body == nil {
+					continue
+				}
+				// a private function of the package that is only ever called (never
+				// taken as a value) and is not one of the evaluator funnels
+				_, refs := c.CallsTo(func(p string) bool { return true }, g)
+				ok := len(refs) == 0 && !c.evalLikeSet()[g]
+				if ok {
+					in[g] = true
+					out = append(out, FuncUnit{g, gd, c.pkgOf[gd]})
+					added = true
+				}
+			}
+		}
+		if !added {
+			break
+		}
+	}
+	c.memo[key] = out
+	return out
 }
